@@ -189,7 +189,13 @@ where
         let (momenta, uniforms, nc, dd, logp_after) = match ev {
             Some(x) => x,
             None => {
-                rep.inconclusive("hook event HmcStep not emitted");
+                // the hook sits where the update draws its momenta: a step that returns normally
+                // without reaching it performed no update at all
+                if eps != 0.0 && eps.is_finite() {
+                    rep.violation(&format!("{sig} step-returned-without-performing-an-update"), mon, case, json!({"cfg": cfg, "step": stepi, "step_size": eps, "L": l}));
+                } else {
+                    rep.inconclusive("hook event HmcStep not emitted");
+                }
                 return;
             }
         };
